@@ -20,8 +20,8 @@ RULE = ('trees: spec / body / ir of every routine and the module spec of E1 prog
         'and class tuples (greedy on/off), scope mode for random nodes, FindScopes for random nodes, expression finders '
         'in all four mode combinations on nodes, tuples and bare expressions. Non-trivial = at least 10 finder calls '
         'returned a non-empty result; distinct = hash of tree encoding and call list.')
-CASES = {'quick': 320, 'thorough': 6000}
-MIN_NONTRIVIAL = {'quick': 150, 'thorough': 3000}
+CASES = {'quick': 280, 'thorough': 4000}
+MIN_NONTRIVIAL = {'quick': 130, 'thorough': 1800}
 ANCHORS = ['loki/ir/find.py', 'loki/ir/expr_visitors.py', 'loki/expression/mappers.py']
 REQUIRED_REACH = ['visit_TypeDef', 'find_uniques', 'visit_VariableDeclaration', 'map_array_subscript', 'retrieve']
 REQUIRED_COUNTERS = {'findnodes_calls': 1000, 'exprfinder_calls': 1000, 'findscopes_calls': 200,
